@@ -18,6 +18,54 @@ RU = 'src/xdoctest/runner.py'
 MA = 'src/xdoctest/__main__.py'
 
 MUTANTS = {
+    'c09_revert_f7': dict(prop='C09', edits=[(CH,
+        """            elif got:
+                # The want normalizes to nothing (e.g. it only consists of
+                # <BLANKLINE> markers), but something was written.
+                if colored:""",
+        """            elif got:
+                raise AssertionError('impossible state')
+                if colored:""")],
+        why='re-introduces F7: a want that normalises to nothing cannot be rendered'),
+    'c09_revert_f8': dict(prop='C09', edits=[(CH,
+        """                try:
+                    got = repr(got_eval)
+                except Exception as ex:
+                    raise ExtractGotReprException('Error calling repr for {}. Caused by: {!r}'.format(type(got_eval), ex), ex)
+                flag = check_output(got, want, runstate)
+                if not flag:
+                    got = got_stdout""",
+        """                got = repr(got_eval)
+                flag = check_output(got, want, runstate)
+                if not flag:
+                    got = got_stdout""")],
+        why='re-introduces F8: unguarded repr() in the stdout-and-value fallback'),
+    'c04_revert_f9': dict(prop='C04', edits=[(DI,
+        """                         for line in text.splitlines() if line.strip())""",
+        """                         for line in text.splitlines())""")],
+        why='re-introduces F9: blank prompt lines turn a block directive into an inline one'),
+    # ------------------------------------------------------------------ C01
+    'c01_no_expandtabs': dict(prop='C01', edits=[(PA,
+        """        string = string.expandtabs()""",
+        """        string = string""")],
+        why='P4: tab-indented docstrings are no longer normalised'),
+    'c01_log_part_pos_not_advanced': dict(prop='C01', edits=[(US,
+        """        self._pos = self.cap_stdout.tell()
+        self.parts.append(text)""",
+        """        self.parts.append(text)""")],
+        why='every part re-reads the capture from the start: recorded stdout is duplicated'),
+    'c01_coroutine_created_not_run': dict(prop='C01', edits=[(DE,
+        """                                else:
+                                    asyncio.run(eval(code, test_globals))""",
+        """                                else:
+                                    eval(code, test_globals).close()""")],
+        why='exec-mode parts with top-level await: the coroutine is created but never driven'),
+    'c01_namespace_per_part': dict(prop='C01', edits=[(DE,
+        """                            else:
+                                exec(code, test_globals)""",
+        """                            else:
+                                exec(code, dict(test_globals))""")],
+        why='exec-mode parts run in a copy of the namespace: bindings do not reach later parts'),
     # ------------------------------------------------------------------ C12
     'c12_stop_only_on_exception': dict(prop='C12', edits=[(US,
         """            try:
@@ -352,6 +400,56 @@ MUTANTS = {
 
 # Behaviour-preserving (with respect to the properties) edits: every check must stay green.
 CONTROLS = {
+    'ctl_stop_restore_reordered': dict(prop=None, run=['C12', 'C11', 'C01'], edits=[(US,
+        """            self.started = False
+            sys.stdout = self.orig_stdout""",
+        """            sys.stdout = self.orig_stdout
+            self.started = False""")],
+        why='two independent statements swapped'),
+    'ctl_logged_dicts_plain': dict(prop=None, run=['C01', 'C02', 'C09'], edits=[(DE,
+        """        self.logged_evals = OrderedDict()
+        self.logged_stdout = OrderedDict()""",
+        """        self.logged_evals = {}
+        self.logged_stdout = {}""")],
+        why='OrderedDict -> dict (insertion ordered anyway)'),
+    'ctl_finally_assert_dropped': dict(prop=None, run=['C01', 'C09', 'C12'], edits=[(DE,
+        """                    if cap.enabled:
+                        assert cap.text is not None
+                    # Ensure that we logged""",
+        """                    # Ensure that we logged""")],
+        why='a redundant assertion removed'),
+    'ctl_runner_warned_after_failed': dict(prop=None, run=['C10', 'C09'], edits=[(RU,
+        """            summaries.append(summary)
+            if example.warn_list:
+                warned.append(example)
+            if summary['skipped']:""",
+        """            summaries.append(summary)
+            if summary['skipped']:""")],
+        why='the runner no longer keeps the list of doctests that warned (n_warned is not part of C10): tallies, failed list and exit status are unchanged'),
+    'ctl_log_part_restructured': dict(prop=None, run=['C01', 'C02', 'C11'], edits=[(US,
+        """        self.cap_stdout.seek(self._pos)
+        text = self.cap_stdout.read()
+        self._pos = self.cap_stdout.tell()
+        self.parts.append(text)
+        self.text = text""",
+        """        everything = self.cap_stdout.getvalue()
+        text = everything[self._pos:]
+        self._pos = len(everything)
+        self.cap_stdout.seek(self._pos)
+        self.parts.append(text)
+        self.text = text""")],
+        why='log_part reads the new text by slicing getvalue() instead of seek/read: same text'),
+    'ctl_loop_left_open_not_running': dict(prop=None, run=['C12'], edits=[(DE,
+        """                                else:
+                                    asyncio.run(eval(code, test_globals))""",
+        """                                else:
+                                    _lp = asyncio.new_event_loop()
+                                    try:
+                                        _lp.run_until_complete(eval(code, test_globals))
+                                        _lp.run_until_complete(_lp.shutdown_asyncgens())
+                                    finally:
+                                        asyncio.set_event_loop(None)""")],
+        why='exec-mode await parts run on a loop that is left open but idle: "no event loop is left running" still holds (pending tasks are not cancelled, so this control is only run against C12)'),
     'c02_want_matches_any_suffix_chars': dict(prop=None, run=['C02'], edits=[(CH,
         """        if got == want:
             return True
